@@ -326,8 +326,27 @@ func (e *Exec) intrinsic(name string, fn *ssa.Function, args []Value) (Value, bo
 		}
 		return e.newErr("invalid denom"), true
 	}
+	// ambient sources whose result is modelled as a fresh arbitrary value on every call, so that any
+	// dependence of an outcome on them shows up as a difference between two runs (C18)
+	switch name {
+	case "time.Now":
+		e.events = append(e.events, "ambient: call of time.Now @ "+e.where())
+		st, ok := e.zero(fn.Signature.Results().At(0).Type()).(*StructV)
+		if ok && len(st.f) >= 2 {
+			st.f[0].v = tb.Sym(e.W.fresh("wallclock"), 64)
+			st.f[1].v = tb.Sym(e.W.fresh("wallclock_ext"), 64)
+			return st, true
+		}
+	case "math/rand.Int", "math/rand.Intn", "math/rand.Int63", "math/rand.Int63n", "math/rand.Uint64", "math/rand.Uint32", "math/rand.Int31", "math/rand.Int31n",
+		"math/rand/v2.Int", "math/rand/v2.IntN", "math/rand/v2.Uint64", "math/rand/v2.Uint32":
+		e.events = append(e.events, "ambient: call of "+name+" @ "+e.where())
+		w := width(fn.Signature.Results().At(0).Type())
+		if w > 0 {
+			return tb.Sym(e.W.fresh("random"), w), true
+		}
+	}
 	// ambient sources of nondeterminism (C18)
-	for _, p := range []string{"time.Now", "time.Since", "time.Until", "math/rand.", "math/rand/v2.", "crypto/rand.", "os.", "runtime.", "(*math/rand.Rand)."} {
+	for _, p := range []string{"time.Since", "time.Until", "math/rand.", "math/rand/v2.", "crypto/rand.", "os.", "runtime.", "(*math/rand.Rand)."} {
 		if strings.HasPrefix(name, p) && !e.inInit {
 			e.events = append(e.events, "ambient: call of "+name+" @ "+e.where())
 			e.fail("ambient nondeterminism source %s", name)
